@@ -164,12 +164,15 @@ let handle (toks : string list) : string =
                         if (writes q || q.iq_join <> None) && List.exists (fun (r, _) -> r <> "-") ob then "ok nt" else "ok"))
             with Unparsable s -> "diff unparsable_value " ^ s)
        | _ -> "bad line")
-  | "W" :: w :: gks :: "#" :: rest ->
+  | "W" :: j :: w :: gks :: an :: "#" :: rest ->
       (match Win.split_hash rest with
        | [rows; obs] ->
            (try
               let gkeys = String.split_on_char ';' gks in
-              let q = { iq_join = None; iq_where = parse_where w; iq_star = false; iq_items = [];
+              (* an analytic function in SELECT of a window query is evaluated on the result rows: it is an
+                 item of the query, and the window path must not look at it when it decides about the copy *)
+              let items = if an = "A-" then [] else [ItLag (bytes_of_string "la", bytes_of_string "pl")] in
+              let q = { iq_join = parse_join j; iq_where = parse_where w; iq_star = false; iq_items = items;
                         iq_window = true; iq_gkeys = List.map bytes_of_string gkeys } in
               let rws = List.map parse_row rows in
               let ob = pairs obs in
